@@ -354,17 +354,23 @@ pub fn run(thorough: bool) -> i32 {
     // base configurations
     let mut bases: Vec<Case> = Vec::new();
     for scheme in ALL_SCHEMES {
-        let ebs: Vec<(u16, u16)> = match scheme {
+        let mut ebs: Vec<(u16, u16)> = match scheme {
             Scheme::Raptor => vec![(1, 4), (2, 5), (3, 4)],
             _ => vec![(1, 1), (2, 1), (3, 2), (4, 3)],
         };
+        if thorough {
+            ebs.extend(match scheme {
+                Scheme::Raptor => vec![(4, 7), (8, 4)],
+                _ => vec![(5, 3), (8, 4), (16, 2), (2, 9)],
+            });
+        }
         for (e, b) in ebs {
             let parities: Vec<u16> = if scheme == Scheme::NoCode { vec![0] } else if thorough { vec![1, 2, 3] } else { vec![1, 2] };
             for parity in parities {
-                let lmax = 3 * e as usize * b as usize + 2;
+                let lmax = (if thorough { 5 } else { 3 }) * e as usize * b as usize + 2;
                 for len in 0..=lmax {
                     for interleave in [1u8, 2, 3] {
-                        for cenc in [0u8, 3] {
+                        for cenc in (if thorough { vec![0u8, 1, 2, 3] } else { vec![0u8, 3] }) {
                             if cenc != 0 && len % 4 != 1 {
                                 continue; // the transfer-encoded length is what matters; a few text sizes suffice
                             }
